@@ -238,6 +238,9 @@ abbrev insertRelation (hash : Hash) (a : Addr) (idx : Nat) (to conv : Bool) : LM
 
 def DB.isReplay (db : DB) (hash : Hash) : Bool := db.rels.any (·.hash == hash)
 
+/-- `IsTransactionHistoryRecorded`: some history batch row carries this hash -/
+def DB.isRecorded (db : DB) (hash : Hash) : Bool := db.histB.any (·.hash == hash)
+
 /-! ### holding -/
 
 abbrev insertHolding (r : HoldRow) : LM Unit :=
